@@ -1,0 +1,35 @@
+//go:build verif
+
+package scanner
+
+// Contracts for govc (see /verif/DESIGN.md). Comment-only file.
+// Only the look-ahead sites of the schema scanner are under contract (C07:
+// "scanner look-ahead reads data[index] without a bounds test"); the scanner's
+// state functions as a whole are not (see DESIGN.md §9).
+
+//@ func (*Scanner).newDocumentErrorAtCharacter(context)
+//@   props C07 C17
+//@   requires s != nil && 1 <= s.index && s.index <= len(s.data)
+//@   nopanic
+//@   ensures result.index == s.index - 1 && result.hasIndex && result.file == s.file
+
+// the byte after the one being processed exists only if index < dataSize:
+// at the last byte of the input the look-ahead must not read
+//@ func stateAnyCommentStart(s, c)
+//@   props C07
+//@   requires s != nil && s.dataSize == len(s.data) && 1 <= s.index && s.index <= s.dataSize
+//@   maypanic
+//@   modifies s.annotation, s.step
+//@   ensures panics ==> typeis(pv, errors.DocumentError)
+
+//@ func stateMultiLineComment(s, c)
+//@   props C07
+//@   requires s != nil && s.dataSize == len(s.data) && 1 <= s.index && s.index <= s.dataSize && s.returnToStep != nil
+//@   maypanic
+//@   modifies *
+
+//@ func stateMultiLineAnnotationText(s, c)
+//@   props C07
+//@   requires s != nil && s.dataSize == len(s.data) && 1 <= s.index && s.index <= s.dataSize
+//@   nopanic
+//@   modifies s.finds, s.finds[*], s.step
